@@ -180,3 +180,35 @@ def rebase_v2(batch: bytes, base_offset: int, *, log_append_time: int | None = N
         struct.pack_into(">q", b, 35, log_append_time)
         struct.pack_into(">I", b, 17, crc32c(bytes(b[21:])))
     return bytes(b)
+
+
+# ---- legacy message sets (magic 0 / 1) -----------------------------------------
+def _legacy_msg(offset, magic, attrs, ts, key, value):
+    body = struct.pack(">bb", magic, attrs)
+    if magic == 1:
+        body += struct.pack(">q", ts)
+    body += struct.pack(">i", -1) if key is None else struct.pack(">i", len(key)) + key
+    body += struct.pack(">i", -1) if value is None else struct.pack(">i", len(value)) + value
+    crc = zlib.crc32(body) & 0xFFFFFFFF
+    msg = struct.pack(">I", crc) + body
+    return struct.pack(">qi", offset, len(msg)) + msg
+
+
+def write_legacy(magic, records, *, compressed=False, ts_type=0) -> bytes:
+    """records: list of (absolute_offset, timestamp, key, value).  Uncompressed: one
+    message per record.  compressed (gzip): one wrapper message carrying the inner
+    message set; wrapper offset = last inner offset; inner offsets are relative
+    (0..n-1) for magic 1 and absolute for magic 0."""
+    if not compressed:
+        return b"".join(_legacy_msg(o, magic, (ts_type << 3) if magic == 1 else 0, ts, k, v) for o, ts, k, v in records)
+    last = records[-1][0]
+    inner = b""
+    for i, (o, ts, k, v) in enumerate(records):
+        io = o if magic == 0 else (o - records[0][0])   # relative to the first inner offset
+        inner += _legacy_msg(io, magic, 0, ts, k, v)
+    if magic == 1:
+        # Kafka: relative offsets are 0-based deltas such that abs = wrapper_offset - (last_rel - rel)
+        pass
+    attrs = 1 | ((ts_type << 3) if magic == 1 else 0)
+    wts = max(r[1] for r in records)
+    return _legacy_msg(last, magic, attrs, wts, None, gzip.compress(inner))
